@@ -495,21 +495,24 @@ static bool buf_iter_next(struct BufferIterator *iter, void *out) {
 ";
 
     for caps in callback_regex()?.captures_iter(&header) {
+        // The element is typed the way the callback's own function pointer types it: the name
+        // suffix is a Rust name (`u64`) that need not be a C type.
         all_wrappers += &format!(
             r"
-static inline bool cb_collect_static_{typename}(struct CollectBase *ctx, {typename} info) {{
-    return cb_collect_static_base(ctx, sizeof({typename}), &info);
+static inline bool cb_collect_static_{typename}(struct CollectBase *ctx, {argty} info) {{
+    return cb_collect_static_base(ctx, sizeof({argty}), &info);
 }}
 
-static inline bool cb_collect_dynamic_{typename}(struct CollectBase *ctx, {typename} info) {{
-    return cb_collect_dynamic_base(ctx, sizeof({typename}), &info);
+static inline bool cb_collect_dynamic_{typename}(struct CollectBase *ctx, {argty} info) {{
+    return cb_collect_dynamic_base(ctx, sizeof({argty}), &info);
 }}
 
-static inline bool cb_count_{typename}(size_t *cnt, {typename} info) {{
+static inline bool cb_count_{typename}(size_t *cnt, {argty} info) {{
     return ++(*cnt);
 }}
 ",
-            typename = &caps["typename"]
+            typename = &caps["typename"],
+            argty = caps["argty"].trim()
         );
     }
 
@@ -855,7 +858,7 @@ typedef struct (?P<objtype>CGlueTraitObj_[^\s]+_{}_[^\s]+) \{{",
 
 fn callback_regex() -> Result<Regex> {
     Regex::new(
-        r"typedef struct Callback_c_void__(?P<typename>[^\s]+) \{[^}]*\} Callback_c_void__[^\s]+;",
+        r"typedef struct Callback_c_void__(?P<typename>[^\s]+) \{[^}]*\(\*func\)\(void\s*\*,(?P<argty>[^)}]*)\);[^}]*\} Callback_c_void__[^\s]+;",
     )
     .map_err(Into::into)
 }
